@@ -156,6 +156,7 @@ def build64(defs):
                 defs.append(("b64_e%d_%d" % (k, j), ty, fn))
             elif it != "'='":
                 raise GenError("base64 display arm %d item %d: expected '='" % (k, j))
+    defs.append(("b64_disp_pad", "N", "%d%%N" % ord("=")))
     # Decoder::push / finalize
     imp = impl_body(src, r"impl<Builder:\s*OctetsBuilder>\s*Decoder<Builder>")
     push = fn_body(imp, "push")
